@@ -209,9 +209,46 @@ fn c12_merge_stats_split_invariant() {
   kani::cover!(v[0] == v[1] && v[1] == v[2], "all values equal");
 }
 
-// The m2 / variance term of merge_stats was tried with an exact oracle (four integer
-// values in +-1000, segmentation 2|2, every intermediate value dyadic): the symbolic
-// f64 multiplications do not get through the SAT solver in 900 s.  Outside the claim.
+// The m2 / variance term of merge_stats with an exact oracle: four integer values,
+// segmentation 2|2 — every count is a power of two, so every mean, delta and m2 is a
+// dyadic rational that f64 represents exactly, and 4*m2 = 4*sum(x^2) - (sum x)^2 holds
+// bit for bit.  With values in +-1000 the symbolic f64 multiplications did not get
+// through the SAT solver in 900 s; with 3-bit values (-4..=3) constant propagation
+// through the int->f64 conversion leaves a formula the solver decides.
+
+fn tiny_int() -> (i32, f64) {
+  let i: i32 = kani::any();
+  kani::assume(i >= -4 && i <= 3);
+  (i, i as f64)
+}
+
+//@ props: C12
+//@ tier: quick
+//@ funcs: query::aggs::merge_stats (the m2 / variance term used by extended_stats: sum of squares, variance, std deviation)
+//@ symbolic: four integer field values in -4..=3; two segments of two documents each, merged in both orders
+//@ bounds: 4 values (3 bits each), segmentation 2|2 (all counts powers of two, so the f64 arithmetic is exact and the oracle needs no tolerance)
+//@ oracle: n*m2 of the merged state equals n*sum(x^2) - (sum x)^2 computed in integer arithmetic (the definition of the sum of squared deviations), for both merge orders; count/sum as for one segment
+//@ outside: segment sizes that are not powers of two (f64 rounding makes the comparison inexact), larger values
+#[kani::proof]
+#[kani::unwind(4)]
+fn c12_merge_stats_variance_term_exact() {
+  let (i0, x0) = tiny_int();
+  let (i1, x1) = tiny_int();
+  let (i2, x2) = tiny_int();
+  let (i3, x3) = tiny_int();
+  let a = merge_stats(merge_stats(StatsState::default(), single(x0)), single(x1));
+  let b = merge_stats(merge_stats(StatsState::default(), single(x2)), single(x3));
+  let sum = i0 + i1 + i2 + i3;
+  let sq = i0 * i0 + i1 * i1 + i2 * i2 + i3 * i3;
+  let want4 = (4 * sq - sum * sum) as f64;
+  let ab = merge_stats(a, b);
+  assert!(ab.count == 4 && ab.sum == sum as f64, "C12: stats count/sum depend on segmentation");
+  assert!(ab.m2 * 4.0 == want4, "C12: the merged sum of squared deviations (variance / std deviation of extended_stats) differs from the single-segment value");
+  let ba = merge_stats(b, a);
+  assert!(ba.m2 * 4.0 == want4, "C12: the merged sum of squared deviations depends on the merge order");
+  kani::cover!(i0 == i1 && i2 == i3 && i0 != i2, "both segments have zero variance but different means");
+  kani::cover!(want4 == 0.0, "all values equal");
+}
 
 fn qstate(vals: &[f64]) -> QuantileState {
   let mut q = QuantileState::default();
